@@ -13,7 +13,7 @@ use taskchampion::chrono::{DateTime, Utc};
 use taskchampion::server::{
     AddVersionResult, GetVersionResult, HistorySegment, Server, Snapshot, SnapshotUrgency, VersionId,
 };
-use taskchampion::storage::inmemory::InMemoryStorage;
+use crate::faulty::FaultyStorage as InMemoryStorage;
 use taskchampion::{Error, Operation, Operations, Replica, Uuid};
 
 use crate::{block_on, num_of, poll_once, uuid_of};
@@ -175,7 +175,7 @@ pub fn value_string(v: &Value) -> Option<String> {
         Value::Object(o) => {
             let id = o["id"].as_i64().unwrap_or(0);
             let len = o["len"].as_u64().unwrap_or(8) as usize;
-            let mut s = format!("v{id}_");
+            let mut s = format!("v{id:04}_");
             while s.len() < len {
                 s.push('x');
             }
@@ -365,7 +365,9 @@ pub fn run(scn: &Value) -> Value {
             .map(|x| (x["req"].as_u64().unwrap(), x["kind"].as_str().unwrap().to_string()))
             .collect();
     }
-    let mut reps: Vec<Replica<InMemoryStorage>> = (0..nrep).map(|_| Replica::new(InMemoryStorage::new())).collect();
+    let storages: Vec<InMemoryStorage> = (0..nrep).map(|_| InMemoryStorage::new()).collect();
+    let plans: Vec<_> = storages.iter().map(|s| s.plan.clone()).collect();
+    let mut reps: Vec<Replica<InMemoryStorage>> = storages.into_iter().map(Replica::new).collect();
     let mut servers: Vec<Box<dyn Server>> = (0..nrep)
         .map(|i| {
             Box::new(RefServer {
@@ -389,11 +391,29 @@ pub fn run(scn: &Value) -> Value {
             let r = r as usize;
             let avoid = step.get("avoid_snapshots").and_then(|v| v.as_bool()).unwrap_or(false);
             let n0 = st.borrow().chain.len();
+            if let Some(f) = step.get("fault") {
+                if f["layer"].as_str() == Some("storage") {
+                    let mut p = plans[r].lock().unwrap();
+                    p.armed = true;
+                    p.count = 0;
+                    p.fired = None;
+                    p.fail_at = f["index"].as_u64().unwrap();
+                    p.after = f["kind"].as_str() == Some("err_after");
+                } else {
+                    let req = f["index"].as_u64().unwrap();
+                    st.borrow_mut().faults.push((req, f["kind"].as_str().unwrap().to_string()));
+                }
+            }
             let res = block_on(reps[r].sync(&mut servers[r], avoid));
+            let fired = {
+                let mut p = plans[r].lock().unwrap();
+                p.armed = false;
+                p.fired.take()
+            };
             let n1 = st.borrow().chain.len();
             results.push(match res {
-                Ok(()) => json!({"ok": true, "versions_added": n1 - n0}),
-                Err(e) => json!({"err": format!("{e:#}"), "versions_added": n1 - n0}),
+                Ok(()) => json!({"ok": true, "versions_added": n1 - n0, "storage_fault_fired": fired}),
+                Err(e) => json!({"err": format!("{e:#}"), "versions_added": n1 - n0, "storage_fault_fired": fired}),
             });
         } else if let Some(group) = step.get("race").and_then(|v| v.as_array()) {
             // concurrent syncs: `race` lists the replicas, `schedule` the order in which their
